@@ -15,7 +15,7 @@ if __name__ != '__main__':
     import lib
     from lib import gz, gtext, glist, gbool, gopt, gpair
 
-THEOREMS = ['C07_prefix_inj', 'C07_prefix_total', 'C07_sort_det', 'C07_toposort_total',
+THEOREMS = ['C07_prefix_inj', 'C07_prefix_unique', 'C07_prefix_total', 'C07_sort_det', 'C07_toposort_total',
             'C07_toposort_sound', 'C07_toposort_det', 'C07_doc_det',
             'C07_wsdl_closed', 'C07_one_op', 'C07_binding_unique_refuted', 'C07_foreign_bare_refuted']
 
@@ -201,6 +201,9 @@ def finding_specs():
         S('Svc0', [M('m0', [('prim', 'Unicode')], ('prim', 'Integer'), style='bare', in_name='{urn:c07:o}foo')])]}))
     out.append(('bare-complex-foreign-ns', {'tns': 'urn:c07:tns', 'name': 'App', 'classes': K, 'faults': [], 'services': [
         S('Svc0', [M('m0', [('cls', 0)], ('cls', 0), style='bare', in_name='{urn:c07:o}foo')])]}))
+    out.append(('bare-class-reused-as-header', {'tns': 'urn:c07:tns', 'name': 'App', 'classes': K, 'faults': [], 'services': [
+        S('Svc0', [M('m0', [('prim', 'Unicode')], ('cls', 0), style='out_bare'),
+                   M('m1', [('prim', 'Unicode')], ('prim', 'Unicode'), in_header=[0])])]}))
     out.append(('cyclic-types', {'tns': 'urn:c07:tns', 'name': 'App', 'cyclic': True, 'classes': [
         {'name': 'K0', 'ns': 'urn:c07:a', 'base': None, 'fields': [['x', ['prim', 'Integer']]]},
         {'name': 'K1', 'ns': 'urn:c07:a', 'base': None, 'fields': [['a', ['cls', 0]]]}], 'faults': [], 'services': [
@@ -217,7 +220,7 @@ def sample_value(tr, classes, rng, depth=0):
     k = tr[0]
     if k == 'prim':
         if tr[1] == 'Unicode':
-            v = rng.choice(['a', 'hello world', 'x<y&z', u'été', 'tab\there'])
+            v = rng.choice(['ab', 'hello world', 'x<y&z', u'été', 'tab\there'])
         elif tr[1] == 'Integer':
             v = rng.choice([0, 1, -7, 2 ** 40, 12345])
         else:
@@ -621,7 +624,10 @@ def oracle_structure(P, app, features):
         return '%s/%s' % (etree.QName(par).localname if par is not None else '', etree.QName(el).localname)
     for kind, q, el in P['refs']:
         r = resolve(el, q)
-        region = 'bare-simple-foreign-ns' if 'bare-simple-foreign-ns' in features else 'any'
+        region = 'any'
+        for f in ('bare-simple-foreign-ns', 'bare-class-reused-as-header'):
+            if f in features:
+                region = f
         if r is None:
             bad('closed', 'undeclared-prefix|%s|%s|%s' % (kind, site(el), region),
                 'QName %r (%s reference at %s) uses a prefix that is not declared in scope' % (q, kind, site(el)))
@@ -744,6 +750,20 @@ def spec_features(spec):
                     f.add('bare-complex-foreign-ns' if t[0] == 'cls' else 'bare-simple-foreign-ns')
     if spec.get('cyclic'):
         f.add('cyclic-types')
+    # a class that is the bare request/response of one method and a header of another
+    bare, hdr = set(), set()
+    for sv in spec['services']:
+        for lst in (sv.get('in_header'), sv.get('out_header')):
+            hdr.update(lst or [])
+        for m in sv['methods']:
+            hdr.update(m.get('in_header') or [])
+            hdr.update(m.get('out_header') or [])
+            if m['style'] == 'bare' and m['params'] and m['params'][0][0] == 'cls':
+                bare.add(m['params'][0][1])
+            if m['style'] != 'wrapped' and m['returns'] is not None and m['returns'][0] == 'cls':
+                bare.add(m['returns'][1])
+    if bare & hdr:
+        f.add('bare-class-reused-as-header')
     return f
 
 
@@ -955,7 +975,12 @@ def zeep_leg(check, spec, b, doc, name):
                            for i, (t, v) in enumerate(zip(m['returns'], ret)))
             else:
                 exp = client_shape(m['returns'], ret, classes)
-            if collapse(strip_none(got)) != collapse(strip_none(exp)):
+            def unwrap1(v):
+                # zeep removes wrappers that have a single member
+                while isinstance(v, dict) and len(v) == 1:
+                    v = list(v.values())[0]
+                return v
+            if unwrap1(collapse(strip_none(got))) != unwrap1(collapse(strip_none(exp))):
                 out.append(('C07|client|reply-values|%s' % key_shape,
                             '%s: %s returned %r, client decoded %r' % (name, opn, exp, got)))
             check.count(('zeep', name, opn))
@@ -1000,7 +1025,7 @@ def process(check, name, spec, cases, want_zeep=True):
     except Exception as e:
         region = [f for f in ('bare-complex-foreign-ns', 'cyclic-types') if f in features]
         key = 'C07|build-crash|%s|%s' % (type(e).__name__, region[0] if region else 'any')
-        check.fail(key, '%s: build_interface_document raised %s: %s' % (name, type(e).__name__, str(e)[:200]),
+        check.fail(key, '%s: build_interface_document raised %s: %s' % (name, type(e).__name__, str(e).split('\n')[0][:200]),
                    {'spec': spec, 'name': name})
         cases.append(('(%s, %s, None)' % (term, glist([gz(x) for x in rank])), name + ' (build raises)'))
         check.count(('crash', name, json.dumps(spec, sort_keys=True)))
